@@ -72,6 +72,15 @@ class VEvent:
         return self._flag
 
 
+def code_id(code):
+    """exit code -> int for trace lines: None -> -1, int -> itself, anything else -> -2"""
+    if code is None:
+        return -1
+    if isinstance(code, int) and not isinstance(code, bool) and code >= 0:
+        return code
+    return -2
+
+
 class ScriptError(Exception):
     """Raised by a scripted handler's `raise` op."""
 
@@ -103,6 +112,7 @@ class Universe:
         self.values = {}              # eid -> Value returned by fire()
         self.last_fired = {}          # (eid, hid) -> last event fired by that handler segment
         self.escaped = None
+        self.internal_errors = []
         self._build()
 
     # ------------------------------------------------------------------ build
@@ -209,6 +219,8 @@ class Universe:
 
     # ----------------------------------------------------------------- tracer
     def install(self):
+        import threading
+        self.main_ident = threading.get_ident()
         self.mgr._verif_tracer = self._tracer
         if not getattr(self.mgr, '_VERIF', False):
             raise RuntimeError('tracer hook of circuits.core.manager is not enabled (CIRCUITS_VERIF)')
@@ -253,6 +265,12 @@ class Universe:
                     kind = 5
                     fe = event.kwargs.get('fevent')
                     ref = self.eid.get(id(fe), 0)
+                    # d = 1: the exception is not a scripted `raise` of the program but an error
+                    # inside circuits itself (or the harness)
+                    etype = event.args[0] if event.args else None
+                    if etype is not ScriptError:
+                        d = 1
+                        self.internal_errors.append(repr(event.args[1]) if len(event.args) > 1 else repr(etype))
                 elif name in ('registered', 'unregistered', 'prepare_unregister'):
                     kind = SYSKIND[name]
                     a = event.args
@@ -260,7 +278,9 @@ class Universe:
                     d = self._cid(a[1]) if len(a) > 1 else 0
             flags = (FLAG_SUCCESS if event.success else 0) | (FLAG_FAILURE if event.failure else 0) | \
                     (FLAG_COMPLETE if event.complete else 0) | (FLAG_NOTIFY if event.notify else 0)
-            o, h = self.stack[-1] if self.stack else (0, 0)
+            import threading
+            # only the thread that runs the handlers can be "inside" one
+            o, h = self.stack[-1] if (self.stack and threading.get_ident() == self.main_ident) else (0, 0)
             self.log.append(line('fire', e=e, n=name, ch=self.chan_str(channels[0]) if channels else '',
                                  p=self.prio_rank.get(extra, 99), c=self._cid(manager), o=o, h=h, f=flags,
                                  x=ref, y=kind, v=v, d=d + (100 if len(channels) > 1 else 0)))
@@ -362,7 +382,7 @@ class Universe:
                 self.log.append(line('op', e=e, h=hid, n='raise'))
                 raise ScriptError('scripted failure h%d e%d' % (hid, e))
             elif o == 'exit':
-                self.log.append(line('op', e=e, h=hid, n='exit', x=op[1] if isinstance(op[1], int) else 0))
+                self.log.append(line('op', e=e, h=hid, n='exit', x=code_id(op[1])))
                 raise SystemExit(op[1])
             elif o == 'kbint':
                 self.log.append(line('op', e=e, h=hid, n='kbint'))
@@ -376,8 +396,15 @@ class Universe:
             elif o == 'unreg':
                 self.api_unreg(op[1], inside=(e, hid))
             elif o == 'stopmgr':
-                self.log.append(line('op', e=e, h=hid, n='stopmgr', x=op[1] if isinstance(op[1], int) else 0))
+                self.log.append(line('op', e=e, h=hid, n='stopmgr', x=code_id(op[1] if len(op) > 1 else None)))
                 comp.stop(op[1] if len(op) > 1 else None)
+            elif o == 'stop2':
+                # a second thread calls stop() while this handler is executing (scripted rendezvous)
+                import threading
+                self.log.append(line('op', e=e, h=hid, n='stop2', x=code_id(op[1] if len(op) > 1 else None)))
+                t = threading.Thread(target=self._thread_stop, args=(comp.root, op[1] if len(op) > 1 else None))
+                t.start()
+                t.join()
             elif o == 'flush':
                 self.log.append(line('op', e=e, h=hid, n='flush'))
                 comp.flush()
@@ -469,7 +496,6 @@ class Universe:
                     val = yield g
                 except Exception as exc:  # TimeoutError thrown in by the manager
                     self.log.append(line('resume', e=e, h=hid, f=2, n=type(exc).__name__))
-                    self.log.append(line('step', e=e, h=hid, d=step + 1))
                     continue
                 v = getattr(val, 'value', val)
                 errs = bool(getattr(val, 'errors', False))
@@ -553,7 +579,7 @@ class Universe:
             self.log.append(line('idle', d=idle[0], x=-1 if timeout is None else int(timeout * 1000) if timeout < 1000 else 999999))
             if idle[0] >= idle_limit or timeout is None or timeout >= 1000:
                 if root.running:
-                    self.log.append(line('api', n='stop', c=cid, x=1))
+                    self.log.append(line('api', n='stop', c=cid, x=-1, y=1))
                     t = threading.Thread(target=root.stop)
                     t.start()
                     t.join()
@@ -563,13 +589,13 @@ class Universe:
         old_int, old_term = signal.getsignal(signal.SIGINT), signal.getsignal(signal.SIGTERM)
         helpers.Event = VEvent
         VEvent.hook = hook
-        code, how = 0, 0
+        code, how = -1, 0
         try:
             try:
                 root.run()
             except SystemExit as exc:
                 how = 1
-                code = exc.code if isinstance(exc.code, int) else (0 if exc.code is None else -2)
+                code = code_id(exc.code)
         finally:
             VEvent.hook = None
             helpers.Event = old_event
@@ -577,6 +603,19 @@ class Universe:
             signal.signal(signal.SIGTERM, old_term)
         self.log.append(line('runret', c=cid, x=how, v=code, d=len(root), f=1 if root.running else 0,
                              y=0 if root._executing_thread is None else 1))
+
+    def _thread_stop(self, root, code):
+        try:
+            root.stop(code)
+        except SystemExit:
+            pass        # raised in the stopping thread, not in the loop thread
+
+    def api_stop(self, cid, code=None):
+        self.log.append(line('api', n='stop', c=cid, x=code_id(code)))
+        try:
+            self.comps[cid].stop(code)
+        except SystemExit as exc:
+            self.log.append(line('escape', n='SystemExit', x=code_id(exc.code)))
 
     def api_flush(self, cid):
         self.log.append(line('api', n='flush', c=cid))
@@ -694,6 +733,8 @@ class Universe:
                         self.api_tick(op[1])
                     elif o == 'run':
                         self.api_run(op[1], *(op[2:3]))
+                    elif o == 'stop':
+                        self.api_stop(op[1], *(op[2:3]))
                     elif o == 'cancel':
                         self.api_cancel(op[1])
                     elif o == 'proj':
